@@ -39,7 +39,7 @@ prop('C16',
      units=['lru', 'cache'],
      assumptions=[A_VERUS, A_EXTRACT, A_CAP, A_HASH, A_CLONE, A_F64,
                   'A-fxhashmap: rustc_hash::FxHashMap is replaced by a trusted stub that only promises: get returns nothing or a value inserted under an equal key'],
-     replay='lru',
+     replay={'lru': 'lru', 'cache': 'bdd', '*': 'lru'},
      explanation='Lru::{new,insert,get,grow} are proved against a slot/view invariant for every capacity and every hash function; lemma_lru_history_* turn the three '
                  'contracts into the history statement (a lookup returns nothing or the latest insertion under exactly that key); both ITE adapters are proved to return only what was stored under the queried standard triple, complement flag re-applied',
      not_covered=[
